@@ -14,7 +14,9 @@ The only size assumption is the global model bound "buffers are below 4 GiB".
 
 Continued in `Thm/C10Pos.lean`: the ghost position `Res.pos` is the observable capture `save[0]`, a scan
 writes only below `save_len`, parsed patterns satisfy the pattern half of `Hyp`, a `Hyp` witness on a file
-view with two sections and the witness that `SecWF` cannot be dropped.
+view with two sections and the witness that `SecWF` cannot be dropped; the counter `hits` is bounded by
+the progress of `range.start` and its checked `u32` increment cannot overflow (`C10_hits_bounded`,
+`C10_hits_no_overflow`).
 -/
 namespace Pelite.Scan
 open Pelite.Pattern Pelite.Exec
